@@ -86,6 +86,42 @@ def lookup_rule(ctx, rep, se):
         n = arith.norm(r, env)
         return n in (("Eq", ("sym", "cand"), ("sym", "cur")), ("Eq", ("sym", "cur"), ("sym", "cand")))
 
+    # pin_to_bytes returns the prefix out[..n] of the scratch array it was given (the `digits`
+    # rule decides which form it has); then "the first len(digits) bytes of that array as
+    # pin_to_bytes left it" - a copy kept in a private struct, say - is the same bytes
+    pse = ctx.wrap.run("pin::pin_to_bytes")
+    pret = strip(pse.ret) if pse is not None else ("?",)
+    prefix_form = False
+    if util.is_call(pret) and pret[1].endswith("::index_mut") and len(pret[2]) == 2:
+        rg = strip(pret[2][1])
+        prefix_form = rg[0] == "agg" and (rg[2] == "std::ops::RangeTo" or (rg[2] == "std::ops::Range" and util.numnorm(rg[4][0])[:2] == ("int", 0)))
+
+    def prefix_view(src):
+        if not prefix_form or not (util.is_call(src) and src[1].endswith("::index_mut") and len(src[2]) == 2):
+            return False
+        rg = strip(src[2][1])
+        if not (rg[0] == "agg" and (rg[2] == "std::ops::RangeTo" or (rg[2] == "std::ops::Range" and util.numnorm(rg[4][0])[:2] == ("int", 0)))):
+            return False
+        end = util.numnorm(rg[4][-1] if rg[2] == "std::ops::Range" else rg[4][0])
+        n_ok = end[0] == "len" and strip(end[1]) == digits
+        base = src[2][0]
+        if strip(base)[0] == "mutref":
+            base = se.call_old.get((src[3][:2], 0), base)
+        base = strip(base)
+        # the array (possibly already worked on by an earlier pass) is the one pin_to_bytes filled
+        while base[0] == "after" and not (util.is_call(base[1]) and base[1][1] == "pin::pin_to_bytes"):
+            base = strip(base[3])
+        while base[0] == "field" and strip(base[1])[0] in ("agg", "after", "phi", "field"):
+            inner = strip(base[1])
+            if inner[0] == "agg" and isinstance(base[2], int) and base[2] < len(inner[4]):
+                base = strip(inner[4][base[2]])
+            else:
+                break
+        while base[0] == "after" and not (util.is_call(base[1]) and base[1][1] == "pin::pin_to_bytes"):
+            base = strip(base[3])
+        arr_ok = base[0] == "after" and util.is_call(base[1]) and base[1][1] == "pin::pin_to_bytes" and strip(base[1]) == digits and base[2] == 1
+        return n_ok and arr_ok
+
     passes = []
     for lp in util.for_loops(ctx, se):
         if "slice::IterMut" not in (lp["resolved"] or ""):
@@ -103,6 +139,8 @@ def lookup_rule(ctx, rep, se):
         # a later pass sees the slice as left by the earlier pass over it
         while src is not None and src[0] == "after" and util.is_call(src[1]) and src[1][1].split("::")[-1] in ("into_iter", "iter_mut") and src[2] == 0:
             src = strip(src[3])
+        if src is not None and src != digits and prefix_view(src):
+            src = digits
         if src is None or src != digits:
             continue
         elem = lp["elem"]
@@ -151,6 +189,8 @@ def check(ctx, rep):
     body = se.body
     # ---- Some(...) payload transcript
     somes = [(bi, si) for bi, si, s in util.blocks_constructing(body, "std::option::Option", "Some")]
+    # (the Some of the hash, not the Some(builder) of a looked-through `EnteredPin::new(pin)?`)
+    somes = [x for x in somes if not (strip(se.assigns[x][1][4][0])[0] == "agg" and strip(se.assigns[x][1][4][0])[1] == "adt" and strip(se.assigns[x][1][4][0])[2] in fb.adts)]
     nones = [(bi, si) for bi, si, s in util.blocks_constructing(body, "std::option::Option", "None")]
     if len(somes) != 1:
         rep.violation("transcript", HF, "some", "expected one Some(..) construction, found %d" % len(somes), body.loc())
@@ -162,7 +202,34 @@ def check(ctx, rep):
     # the digit buffer hashed is the slice produced by pin_to_bytes (mutated in place)
     if good:
         raw = b[1][1][1][1]
-        rep.check("pin::pin_to_bytes" in str(raw), "transcript", HF, "digits-source", "digit buffer is the pin_to_bytes slice", "inner hash input is not the digit buffer: %s" % str(raw)[:200], body.loc())
+        # exactly that buffer: the slice pin_to_bytes returned (as the passes left it), or - when
+        # pin_to_bytes returns the prefix of its scratch array - the first len(slice) bytes of
+        # that array; not a shorter or shifted view of it
+        rt = util.RAW_TERMS.get(raw[1]) if raw and raw[0] == "raw" else None
+        src_ok = bool(raw) and raw[0] == "call" and raw[1] == "pin::pin_to_bytes"      # the slice itself
+        if rt is not None:
+            x = strip(rt)
+            dcalls = [strip(i["term"]) for i in se.term_info.values() if i.get("k") == "call" and i["name"] == "pin::pin_to_bytes"]
+            dg = dcalls[0] if len(dcalls) == 1 else None
+
+            def peel_passes(y):
+                y = strip(y)
+                while y[0] == "after" and util.is_call(y[1]) and (y[1][1].split("::")[-1] in ("into_iter", "iter_mut", "next") or y[1][1].endswith("::index_mut") or y[1][1].endswith("DerefMut>::deref_mut")) and y[2] == 0:
+                    y = strip(y[3])
+                return y
+
+            y = peel_passes(x)
+            if dg is not None and y == dg:
+                src_ok = True
+            elif dg is not None and util.is_call(y) and (y[1].endswith("::index") or y[1].endswith("::index_mut")) and len(y[2]) == 2:
+                rg = strip(y[2][1])
+                if rg[0] == "agg" and (rg[2] == "std::ops::RangeTo" or (rg[2] == "std::ops::Range" and util.numnorm(rg[4][0])[:2] == ("int", 0))):
+                    end = util.numnorm(rg[4][-1] if rg[2] == "std::ops::Range" else rg[4][0])
+                    pse_ = ctx.wrap.run("pin::pin_to_bytes")
+                    pr_ = strip(pse_.ret) if pse_ is not None else ("?",)
+                    pform = util.is_call(pr_) and pr_[1].endswith("::index_mut") and strip(pr_[2][1])[0] == "agg" and (strip(pr_[2][1])[2] == "std::ops::RangeTo" or util.numnorm(strip(pr_[2][1])[4][0])[:2] == ("int", 0))
+                    src_ok = pform and end[0] == "len" and strip(end[1]) == dg and "pin::pin_to_bytes" in str(y[2][0])
+        rep.check(src_ok, "transcript", HF, "digits-source", "the inner hash takes exactly the digit buffer (the pin_to_bytes slice as the passes left it)", "inner hash input is not exactly the digit buffer: %s" % str(raw)[:200], body.loc())
     # ---- ASCII offset loop: a `+ 0x30` on the element, every element
     adds = []
     for (bi, si), (l, val) in se.assigns.items():
